@@ -179,8 +179,10 @@ def _main2(prop, tier, seed, replay, scratch, binfo, mod, extra_env, t0):
         "coverage": cov, "assumptions": res["assumptions"],
         "wall_s": round(time.time() - t0, 2), "violations": len(new),
     }
-    os.makedirs(os.path.join(VERIF, "evidence"), exist_ok=True)
-    evf = os.path.join(VERIF, "evidence", prop + ".json")
+    # runs against another tree than /repo (seeded changes) must not overwrite the evidence of /repo
+    evdir = os.path.join(VERIF, "evidence") if build.REPO == "/repo" else os.path.join(VERIF, "evidence", "_other_tree")
+    os.makedirs(evdir, exist_ok=True)
+    evf = os.path.join(evdir, prop + ".json")
     with open(evf + ".tmp", "w") as fh:
         json.dump(ev, fh, indent=1, sort_keys=True)
     os.replace(evf + ".tmp", evf)
